@@ -2,6 +2,7 @@
 import glob
 import itertools
 import json
+import zlib
 import os
 import sys
 
@@ -91,10 +92,10 @@ def gen_stream(chk, kname, want):
     small = list(al.small_cases())
     if not chk.thorough:
         step = 23
-        off = (chk.seed + hash(kname) % 7) % step
+        off = (chk.seed + zlib.crc32(kname.encode()) % 7) % step
         small = small[off::step]
     out += [(c, 'small') for c in small]
-    n = chk.n(250, 6000)
+    n = chk.n(1000, 6000)
     maxlen = chk.n(8, 25)
     for _ in range(n):
         out.append((al.gen_case(rng, maxlen=maxlen, exact=True, force_scale1=(want == 'opt')), 'random-exact'))
